@@ -1,15 +1,268 @@
 package main
 
-// Lock discipline and guarded-field obligations (C12/C15). Filled in later; the hooks are no-ops
-// until the field classification is loaded.
+// Lock discipline (C12, C15): a ghost lockset per activation, guarded-field obligations, and
+// wait-level obligations for blocking operations.
+//
+// Contract-file directives:
+//   field pkg.Type.f guarded_by(mu)       every access needs the same object's lock mu (reads: at least RLock)
+//   field pkg.Type.f read_shared(mu)      writes need mu in write mode; reads are allowed without it
+//   field pkg.Type.f immutable            written only while the object is not yet shared (allocated in this activation)
+//   field pkg.Type.f atomic               accessed through sync/atomic only
+//   field pkg.Type.f confined             used by one goroutine at a time by construction (reason in the contract file)
+//   field pkg.Type.f lock                 the field is a mutex itself
+// Function clauses:
+//   holds x.mu            the caller holds x.mu (write mode) for the whole call
+//   holds_read x.mu       ... at least in read mode
+//   level NAME            (C15) see waitLevels
 
 import (
+	"fmt"
 	"go/token"
+	"go/types"
+	"strings"
 )
 
-func (fc *FnCtx) lockHookChan(st *State, kind string, ch Val, pos token.Pos) {}
-func (fc *FnCtx) lockHookCall(st *State, con *Contract, env *specEnv, pos token.Pos) {}
-func (fc *FnCtx) lockHeld(st *State, v Val) string                                   { return "false" }
-func (fc *FnCtx) guardCheck(st *State, a *Addr, write bool, pos token.Pos)           {}
-func (fc *FnCtx) lockEntry(st *State, con *Contract, env *specEnv)                   {}
-func (fc *FnCtx) lockExit(st *State, con *Contract, env *specEnv)                    {}
+type heldLock struct {
+	owner string // struct type name
+	field string
+	ref   string // object reference term
+	write bool
+}
+
+func (h heldLock) String() string {
+	m := "r"
+	if h.write {
+		m = "w"
+	}
+	return fmt.Sprintf("%s.%s@%s/%s", h.owner, h.field, h.ref, m)
+}
+
+func parseHeld(s string) heldLock {
+	// inverse of String
+	var h heldLock
+	i := strings.LastIndex(s, "/")
+	h.write = s[i+1:] == "w"
+	s = s[:i]
+	j := strings.Index(s, "@")
+	h.ref = s[j+1:]
+	of := s[:j]
+	k := strings.LastIndex(of, ".")
+	h.owner, h.field = of[:k], of[k+1:]
+	return h
+}
+
+var lockMethods = map[string]string{
+	"(*sync.Mutex).Lock": "lock", "(*sync.Mutex).Unlock": "unlock",
+	"(*sync.RWMutex).Lock": "lock", "(*sync.RWMutex).Unlock": "unlock",
+	"(*sync.RWMutex).RLock": "rlock", "(*sync.RWMutex).RUnlock": "runlock",
+}
+
+// lockIdOf: the lock a *sync.Mutex argument denotes (a field of a heap object).
+func (fc *FnCtx) lockIdOf(v Val) (heldLock, bool) {
+	a := v.Addr
+	if a == nil || a.Kind != aField {
+		return heldLock{}, false
+	}
+	st := a.Owner.Underlying().(*types.Struct)
+	name := st.Field(a.Field).Name()
+	for _, p := range a.Path {
+		name += "." + p.st.Underlying().(*types.Struct).Field(p.idx).Name()
+	}
+	return heldLock{owner: fc.eng.typeName(a.Owner), field: name, ref: a.Ref}, true
+}
+
+func (fc *FnCtx) heldCond(st *State, l heldLock, needWrite bool) string {
+	var alts []string
+	for _, hs := range st.held {
+		h := parseHeld(hs)
+		if h.owner == l.owner && h.field == l.field && (h.write || !needWrite) {
+			alts = append(alts, eq(h.ref, l.ref))
+		}
+	}
+	return or(alts...)
+}
+
+func (fc *FnCtx) lockHookCall(st *State, con *Contract, env *specEnv, pos token.Pos) {
+	kind, isLock := lockMethods[con.Name]
+	if isLock {
+		recv, ok := env.vars["m"]
+		if !ok {
+			fc.note("lock hook: receiver not bound for %s", con.Name)
+			return
+		}
+		l, ok := fc.lockIdOf(recv)
+		if !ok {
+			fc.note("lock operation on a mutex that is not a field of a heap object at %s (not tracked)", fc.eng.pos(pos))
+			return
+		}
+		switch kind {
+		case "lock", "rlock":
+			// Go mutexes are not re-entrant: taking a lock this activation already holds blocks for ever
+			fc.oblige(st, "lock.reentry", not(fc.heldCond(st, l, false)), pos, "lock "+l.owner+"."+l.field+" is not already held by this activation")
+			fc.waitLevelCheck(st, "lock:"+l.owner+"."+l.field, pos)
+			l.write = kind == "lock"
+			st.held = append(st.held, l.String())
+		case "unlock", "runlock":
+			need := kind == "unlock"
+			fc.oblige(st, "unlock", fc.heldCond(st, l, need), pos, "unlock of "+l.owner+"."+l.field+" which is held")
+			// remove one matching entry (the last acquired)
+			for i := len(st.held) - 1; i >= 0; i-- {
+				h := parseHeld(st.held[i])
+				if h.owner == l.owner && h.field == l.field && h.write == need {
+					st.held = append(append([]string(nil), st.held[:i]...), st.held[i+1:]...)
+					break
+				}
+			}
+		}
+		return
+	}
+	// callee requires locks to be held
+	for _, cl := range append(append([]*Clause(nil), con.Holds...), con.Extra["holds_read"]...) {
+		needWrite := true
+		for _, r := range con.Extra["holds_read"] {
+			if r == cl {
+				needWrite = false
+			}
+		}
+		lv := fc.evalLockExpr(env, cl)
+		if lv == nil {
+			continue
+		}
+		fc.oblige(st, "holds", fc.heldCond(st, *lv, needWrite), pos, "callee "+con.Name+" requires "+cl.Text+" to be held")
+	}
+	// blocking callee (C15)
+	for _, cl := range con.Extra["blocks"] {
+		fc.waitLevelCheck(st, "wait:"+strings.TrimSpace(cl.Text), pos)
+	}
+}
+
+func (fc *FnCtx) evalLockExpr(env *specEnv, cl *Clause) *heldLock {
+	if cl.Expr == nil {
+		return nil
+	}
+	lv := fc.evalLvalue(env, cl.Expr)
+	if lv == nil || lv.addr == nil {
+		fc.errorf("%s: cannot resolve lock %s", cl.Pos, cl.Text)
+		return nil
+	}
+	l, ok := fc.lockIdOf(Val{Addr: lv.addr})
+	if !ok {
+		fc.errorf("%s: %s is not a mutex field", cl.Pos, cl.Text)
+		return nil
+	}
+	return &l
+}
+
+func (fc *FnCtx) lockEntry(st *State, con *Contract, env *specEnv) {
+	for _, cl := range con.Holds {
+		if l := fc.evalLockExpr(env, cl); l != nil {
+			l.write = true
+			st.held = append(st.held, l.String())
+		}
+	}
+	for _, cl := range con.Extra["holds_read"] {
+		if l := fc.evalLockExpr(env, cl); l != nil {
+			st.held = append(st.held, l.String())
+		}
+	}
+	fc.entryHeld = append([]string(nil), st.held...)
+}
+
+func (fc *FnCtx) lockExit(st *State, con *Contract, env *specEnv) {
+	// every lock taken by this activation is released again (and nothing the caller holds is released)
+	if strings.Join(st.held, ",") != strings.Join(fc.entryHeld, ",") {
+		fc.oblige(st, "lock.balance", "false", fc.fn.Pos(), fmt.Sprintf("locks held at exit %v differ from entry %v", st.held, fc.entryHeld))
+	}
+}
+
+func (fc *FnCtx) lockHeld(st *State, v Val) string {
+	if l, ok := fc.lockIdOf(v); ok {
+		return fc.heldCond(st, l, false)
+	}
+	return "false"
+}
+
+// guardCheck: obligations for an access to a classified field.
+func (fc *FnCtx) guardCheck(st *State, a *Addr, write bool, pos token.Pos) {
+	if a.Kind != aField || !fc.eng.lockMode {
+		return
+	}
+	owner := fc.eng.typeName(a.Owner)
+	fname := a.Owner.Underlying().(*types.Struct).Field(a.Field).Name()
+	key := owner + "." + fname
+	fi := fc.eng.fieldInfo[key]
+	if fi == nil {
+		if fc.eng.sharedTypes[owner] {
+			fc.oblige(st, "guard.unclassified", "false", pos, "field "+key+" of a shared type has no concurrency classification")
+		}
+		return
+	}
+	// an object allocated by this activation is not shared yet
+	fresh := "false"
+	if fc.entry != nil {
+		fresh = app(">=", a.Ref, fc.entry.alloc)
+	}
+	what := "read"
+	if write {
+		what = "write"
+	}
+	switch fi.Class {
+	case "guarded_by", "read_shared":
+		if fi.Class == "read_shared" && !write {
+			return
+		}
+		l := heldLock{owner: owner, field: fi.Arg, ref: a.Ref}
+		g := or(fc.heldCond(st, l, write), fresh)
+
+		fc.oblige(st, "guard", g, pos, fmt.Sprintf("%s of %s needs %s.%s held (%s mode) or an unshared object", what, key, owner, fi.Arg, map[bool]string{true: "write", false: "read"}[write]))
+	case "immutable":
+		if write {
+			fc.oblige(st, "guard.immutable", fresh, pos, "write of immutable field "+key+" on a possibly shared object")
+		}
+	case "atomic":
+		fc.oblige(st, "guard.atomic", fresh, pos, what+" of atomic field "+key+" without sync/atomic")
+	case "confined", "lock":
+		// nothing to prove here; the justification is part of the classification
+	default:
+		fc.errorf("unknown field class %s for %s", fi.Class, key)
+	}
+}
+
+// ---- wait levels (C15): a blocking operation must be above every lock held ----
+
+func (fc *FnCtx) waitLevelCheck(st *State, what string, pos token.Pos) {
+	if !fc.eng.lockMode || len(fc.eng.waitLevels) == 0 {
+		return
+	}
+	lv, ok := fc.eng.waitLevels[what]
+	if !ok {
+		fc.oblige(st, "waitlevel.undeclared", "false", pos, "blocking operation "+what+" has no declared wait level")
+		return
+	}
+	for _, hs := range st.held {
+		h := parseHeld(hs)
+		hl, ok := fc.eng.waitLevels["lock:"+h.owner+"."+h.field]
+		if !ok {
+			continue
+		}
+		if hl >= lv {
+			fc.oblige(st, "waitlevel", "false", pos, fmt.Sprintf("%s (level %d) while holding %s.%s (level %d): order violated", what, lv, h.owner, h.field, hl))
+		}
+	}
+}
+
+func (fc *FnCtx) lockHookChan(st *State, kind string, ch Val, pos token.Pos) {
+	if !fc.eng.lockMode {
+		return
+	}
+	name := "chan"
+	if ch.Addr != nil && ch.Addr.Kind == aField {
+		name = fc.eng.typeName(ch.Addr.Owner) + "." + ch.Addr.Owner.Underlying().(*types.Struct).Field(ch.Addr.Field).Name()
+	} else if ch.chanName != "" {
+		name = ch.chanName
+	}
+	if strings.HasPrefix(kind, "close") {
+		return
+	}
+	fc.waitLevelCheck(st, strings.TrimPrefix(kind, "select.")+":"+name, pos)
+}
